@@ -303,10 +303,19 @@ pub fn check_scans(d: &Driver, full: bool, out: &mut Vec<Violation>, stats: &mut
         }
     }
 
-    // overlay memtables on the first two keys: each in {absent, value, tombstone}; seqnos with the MSB set
-    let s = SeqNo::MAX;
-    if let Some(model) = d.model.scan_exact(s) {
-        let base: u64 = 0x8000_0000_0000_0000;
+    // overlay memtables on the first and the fourth key: each in {absent, value, tombstone}; seqnos with
+    // the MSB set. Tree snapshot s and overlay watermark w vary independently: (latest, MAX),
+    // (latest, a watermark that hides the second overlay entry), (every held snapshot, MAX) - the last
+    // is how a transaction layer reads its own write set over an older snapshot.
+    let base: u64 = 0x8000_0000_0000_0000;
+    let mut combos: Vec<(SeqNo, SeqNo)> = vec![(SeqNo::MAX, SeqNo::MAX), (SeqNo::MAX, base + 1)];
+    for &sn in &d.snaps {
+        combos.push((sn, SeqNo::MAX));
+        combos.push((sn, base + 1));
+    }
+    combos.dedup();
+    for (s, w) in combos {
+        let Some(model) = d.model.scan_exact(s) else { continue };
         for a in 0..3u8 {
             for b in 0..3u8 {
                 if a == 0 && b == 0 {
@@ -316,6 +325,7 @@ pub fn check_scans(d: &Driver, full: bool, out: &mut Vec<Violation>, stats: &mut
                 let mut overlay: BTreeMap<Vec<u8>, Option<Vec<u8>>> = BTreeMap::new();
                 for (ki, mode) in [(0usize, a), (3usize.min(keys.len() - 1), b)] {
                     let key = keys[ki].clone();
+                    let visible = base + (ki as u64) < w;
                     match mode {
                         1 => {
                             let val = format!("ov{ki}").into_bytes();
@@ -325,11 +335,15 @@ pub fn check_scans(d: &Driver, full: bool, out: &mut Vec<Violation>, stats: &mut
                                 base + ki as u64,
                                 lsm_tree::ValueType::Value,
                             ));
-                            overlay.insert(key, Some(val));
+                            if visible {
+                                overlay.insert(key, Some(val));
+                            }
                         }
                         2 => {
                             mt.insert(lsm_tree::InternalValue::new_tombstone(key.clone(), base + ki as u64));
-                            overlay.insert(key, None);
+                            if visible {
+                                overlay.insert(key, None);
+                            }
                         }
                         _ => {}
                     }
@@ -355,25 +369,51 @@ pub fn check_scans(d: &Driver, full: bool, out: &mut Vec<Violation>, stats: &mut
                     let exp: Vec<Kv> = exp_all.iter().filter(|(k, _)| in_bounds(k, &lo, &hi)).cloned().collect();
                     stats.ranges += 1;
                     for pat in patterns(exp.len(), false) {
-                        let mut it = t.range::<Vec<u8>, _>((lo.clone(), hi.clone()), s, Some((mt.clone(), SeqNo::MAX)));
+                        let mut it = t.range::<Vec<u8>, _>((lo.clone(), hi.clone()), s, Some((mt.clone(), w)));
                         stats.iterations += 1;
-                        if let Err(mut e) = drive(&mut *it, &exp, pat, &format!("range({lo:?},{hi:?}) with overlay {overlay:?}")) {
+                        if let Err(mut e) = drive(&mut *it, &exp, pat, &format!("range({lo:?},{hi:?}) at {s} with overlay (modes {a},{b}; watermark {w}) {overlay:?}")) {
                             e.sig = format!("overlay-{}", e.sig);
                             out.push(e);
                             return;
                         }
                     }
                 }
-                match t.len(s, Some((mt.clone(), SeqNo::MAX))) {
+                match t.len(s, Some((mt.clone(), w))) {
                     Ok(n) if n == exp_all.len() => {}
                     Ok(n) => {
-                        out.push(v("overlay-len-mismatch", format!("len with overlay {overlay:?} = {n}, expected {}", exp_all.len())));
+                        out.push(v("overlay-len-mismatch", format!("len at {s} with overlay {overlay:?} (watermark {w}) = {n}, expected {}", exp_all.len())));
                         return;
                     }
                     Err(e) => {
                         out.push(v("overlay-len-err", format!("{e:?}")));
                         return;
                     }
+                }
+                let first = t.first_key_value(s, Some((mt.clone(), w))).map(|g| g.into_inner().map(|(k, x)| (k.to_vec(), x.to_vec())));
+                let got_first = match first {
+                    Some(Ok(kv)) => Some(kv),
+                    Some(Err(e)) => {
+                        out.push(v("overlay-first-err", format!("{e:?}")));
+                        return;
+                    }
+                    None => None,
+                };
+                if got_first.as_ref() != exp_all.first() {
+                    out.push(v("overlay-first-mismatch", format!("first_key_value at {s} with overlay {overlay:?} (watermark {w}) = {got_first:?}, expected {:?}", exp_all.first())));
+                    return;
+                }
+                let last = t.last_key_value(s, Some((mt.clone(), w))).map(|g| g.into_inner().map(|(k, x)| (k.to_vec(), x.to_vec())));
+                let got_last = match last {
+                    Some(Ok(kv)) => Some(kv),
+                    Some(Err(e)) => {
+                        out.push(v("overlay-last-err", format!("{e:?}")));
+                        return;
+                    }
+                    None => None,
+                };
+                if got_last.as_ref() != exp_all.last() {
+                    out.push(v("overlay-last-mismatch", format!("last_key_value at {s} with overlay {overlay:?} (watermark {w}) = {got_last:?}, expected {:?}", exp_all.last())));
+                    return;
                 }
             }
         }
